@@ -249,6 +249,7 @@ type Frame struct {
 	lets      map[string]Expr
 	stack     []*ssa.Function
 	readOrd   map[ssa.Instruction]string // load of a struct field -> "Type.field#k"
+	entryGuard string
 }
 
 func (r *Run) newFrame(fn *ssa.Function, depth int) *Frame {
@@ -387,6 +388,7 @@ func (r *Run) newRef(st *State) string {
 		r.allocRefs = map[string]bool{}
 	}
 	r.allocRefs[ref] = true
+	r.ctx.allocSyms[ref] = true
 	st.alloc = r.ctx.define("alloc", sRef, fmt.Sprintf("(+ %s %d)", st.alloc, refStride))
 	return ref
 }
